@@ -11,3 +11,4 @@ open PdModel.Tso PdModel.Spec
 #print axioms C01.compose_strict_mono
 #print axioms client_batch_exact
 #print axioms tsLessEqual_iff
+#print axioms C01.composeBV_eq
